@@ -259,7 +259,7 @@ def mn_do_load(ir, instr, arg1, arg2, arg3=None):
     if instr.name[1] == 'M':
         return mn_do_lmw(ir, instr, arg1, arg2)
     elif instr.name[1] == 'S':
-        raise RuntimeError("LSWI, and LSWX need implementing")
+        raise NotImplementedError("LSWI, and LSWX need implementing")
     elif instr.name[1] == 'F':
         print("Warning, instruction %s implemented as NOP" % instr)
         return  [], []
@@ -620,7 +620,7 @@ def mn_do_store(ir, instr, arg1, arg2, arg3=None):
     additional_ir = []
 
     if instr.name[2] == 'S':
-        raise RuntimeError("STSWI, and STSWX need implementing")
+        raise NotImplementedError("STSWI, and STSWX need implementing")
     elif instr.name[2] == 'F':
         print("Warning, instruction %s implemented as NOP" % instr)
         return  [], []
